@@ -2,6 +2,7 @@ import FrappyProofs.Lemmas.Update
 import FrappyProofs.Lemmas.UpdateSys
 import FrappyProofs.Lemmas.UpdateAct
 import FrappyProofs.Lemmas.UpdateCanon
+import FrappyProofs.Lemmas.Transport
 import FrappyModel.Generated.C05
 /-
 C05 — property theorems (nothing but property theorems and their non-vacuity examples).
@@ -960,5 +961,142 @@ example : (runSched exCfg (Sys.init exInit (fun t => if t = 0 then doOps 2 0 [8,
     some ([.val 8, .val 9], .val 9, true) := by decide
 
 end examples
+
+/-! ## the transport of the stream: "the update and error-update messages it RECEIVED"
+
+Everything above is about the messages handed to `connection.send_reply`.  For a TCP connection that is
+`TCPRequestHandler.send_reply` (model `Node/Transport.lean`): the socket is a parameter — every `sendall` succeeds or raises
+(time-out of a peer that does not read, broken pipe, …) after any part of the frame. -/
+section transport
+open Frappy.Transport Frappy.UpdateSys
+variable {F : Type}
+
+/-- For every sequence of `send_reply` calls — from any thread — and rounds of the handler loop, with any behaviour of the
+socket: the peer never sees a garbled line; a connection that is still running has received EVERY frame handed to it and
+is known to the dispatcher and open; one that is not has received a strict prefix of them and is closed and forgotten by the
+next round of its handler loop; the dispatcher never forgets a connection that stays open, nor keeps one that is closed. -/
+theorem transport_all_or_closed (ops : List (TOp F)) :
+    garbled (runT Conn.fresh ops) = 0 ∧
+    ((runT Conn.fresh ops).running = true →
+      received (runT Conn.fresh ops) = handed ops ∧ (runT Conn.fresh ops).listed = true ∧ (runT Conn.fresh ops).closed = false) ∧
+    ((runT Conn.fresh ops).running = false →
+      (∃ n, n < (handed ops).length ∧ received (runT Conn.fresh ops) = (handed ops).take n) ∧
+      (loopRound (runT Conn.fresh ops)).listed = false ∧ (loopRound (runT Conn.fresh ops)).closed = true) ∧
+    ((runT Conn.fresh ops).listed = !(runT Conn.fresh ops).closed) := by
+  have hinv := inv_runT ops Conn.fresh [] inv_fresh
+  simp only [List.nil_append] at hinv
+  obtain ⟨hg, hr, hn⟩ := inv_received _ _ hinv
+  refine ⟨hg, fun h => ⟨hr h, (hinv.1 h).2⟩, fun h => ⟨hn h, ?_, ?_⟩, hinv.2.2⟩ <;> simp [loopRound, h]
+
+/-- At a quiescent point (the handler loop has made its round): a connection the dispatcher still lists has received every
+frame; otherwise it is closed. -/
+theorem served_receives_all (ops : List (TOp F)) :
+    ((runT Conn.fresh (ops ++ [TOp.round])).listed = true →
+      received (runT Conn.fresh (ops ++ [TOp.round])) = handed ops ∧ (runT Conn.fresh (ops ++ [TOp.round])).closed = false) ∧
+    ((runT Conn.fresh (ops ++ [TOp.round])).listed = false → (runT Conn.fresh (ops ++ [TOp.round])).closed = true) := by
+  have hinv := inv_runT ops Conn.fresh [] inv_fresh
+  simp only [List.nil_append] at hinv
+  rw [runT_append]
+  simp only [runT, List.foldl_cons, List.foldl_nil, TOp.apply]
+  cases hr : (List.foldl TOp.apply Conn.fresh ops).running with
+  | true =>
+    have h1 := hinv.1 hr
+    have h2 := (inv_received _ _ hinv).2.1 hr
+    simp only [runT] at h1 h2
+    simp [loopRound, hr, h1, h2]
+  | false => simp [loopRound, hr]
+
+/-- The funnel and the transport together: the snapshot of an activation followed by the messages of ANY history of funnel
+calls, handed to a TCP connection whose socket behaves in ANY way (`ops`: these frames, any outcomes, rounds of the handler
+loop anywhere): when the handler loop has made its round and the dispatcher still lists the connection, replaying what the
+peer RECEIVED — it knew nothing before — gives exactly the cached value-or-error. -/
+theorem transport_activate_replay_eq_cache {V E X : Type} [DecidableEq E] (o : Oracle V E) (ex : V → X) (h : ExportExact o ex)
+    (e : Entry V E) (evs : List (TEv V E)) (ops : List (TOp (Msg V E))) (hh : handed ops = mkMsg e :: (run o e evs).msgs) :
+    (runT Conn.fresh (ops ++ [TOp.round])).listed = true →
+      replayO none ((received (runT Conn.fresh (ops ++ [TOp.round]))).map (fun m => m.ve.map ex)) =
+        some ((run o e evs).entry.ve.map ex) := by
+  intro hl
+  rw [((served_receives_all ops).1 hl).1, hh]
+  exact activate_replay_eq_cache o ex h e evs
+
+/-- The same for the concurrent system: in EVERY reachable state of every schedule of funnel calls, requests and activations,
+for a connection `k` entitled to parameter `p` with no call of `p`'s funnel in flight: if the frames handed to `k`'s TCP
+handler so far (messages of ALL parameters, interleaved in any way; `ops`: any socket behaviour, rounds anywhere) contain for
+`p` exactly `k`'s log, then — after a round of the handler loop, if the dispatcher still lists `k` — replaying the messages
+for `p` among what the peer RECEIVED gives the cached value-or-error of `p`. -/
+theorem transport_activation_coherent {V E X : Type} [DecidableEq E] (c : Cfg V E) (ex : V → X) (h : ExportExact c.o ex)
+    (init : Pid → Entry V E) (progs : Tid → List (Op V E)) (clock : Int) (s : Sys V E) (hn : c.conns.Nodup)
+    (hr : Reach c (Sys.init init progs clock c.act0) s) (k : Cid) (p : Pid) (hk : Sub c s k p)
+    (hfree : ∀ t, pcPid (s.thr t).pc ≠ some p)
+    (ops : List (TOp (Pid × Msg V E))) (hh : ((handed ops).filter (fun f => f.1 == p)).map (·.2) = plog s k p) :
+    (runT Conn.fresh (ops ++ [TOp.round])).listed = true →
+      replayO (known0 c ex init k p)
+        ((((received (runT Conn.fresh (ops ++ [TOp.round]))).filter (fun f => f.1 == p)).map (·.2)).map (fun m => m.ve.map ex)) =
+        some ((s.entries p).ve.map ex) := by
+  intro hl
+  rw [((served_receives_all ops).1 hl).1, hh]
+  exact activation_coherent c ex h init progs clock s hn hr k p hk hfree
+
+/-- … and for the whole statement, observation point by observation point: a stream that satisfies the statement where it
+is handed to `send_reply` (`TraceOkO`: no phantom, recovery and change announced, replay = cache after every operation)
+satisfies it at the peer (`TraceOkT`: the same for as long as the connection is served; the first point at which it is not
+finds it closed and forgotten) — whatever the socket does with every single frame. -/
+theorem transport_preserves_statement {S : Type} [DecidableEq S] (isErr : S → Bool) (k : Option S) (prev : S)
+    (pts : List (Obs S × List SendRes)) (h : TraceOkO isErr k prev (pts.map (·.1))) :
+    TraceOkT isErr k prev (through Conn.fresh pts) :=
+  through_ok isErr pts k prev Conn.fresh [] inv_fresh rfl h
+
+/-- Closing the connection on a failed send is NECESSARY: with a transport that skips the frame and goes on
+(`sendReplySkip`; the class of "a slow client is not thrown out because of an event") a connection stays open, listed and
+running although replaying what it received differs from replaying what it was sent (= the cache); with part of the frame
+written the next message is garbled as well. -/
+theorem skip_on_failure_breaks {S : Type} (init a b : S) (hab : a ≠ b) :
+    ∃ ops : List (TOp S), (runSkip Conn.fresh ops).listed = true ∧ (runSkip Conn.fresh ops).closed = false ∧
+      (runSkip Conn.fresh ops).running = true ∧
+      replay init (received (runSkip Conn.fresh ops)) ≠ replay init (handed ops) :=
+  ⟨[.send a .ok, .send b (.fails 0), .round], rfl, rfl, rfl, by simpa [runSkip, TOp.applySkip, sendReplySkip, Conn.fresh, loopRound, received, decode, handed, replay] using hab⟩
+
+theorem skip_on_failure_garbles {S : Type} (a b : S) :
+    garbled (runSkip Conn.fresh [.send a (.fails 3), .send b .ok, .round]) = 1 ∧
+    received (runSkip Conn.fresh [.send a (.fails 3), .send b .ok, .round]) = [] := by
+  simp [runSkip, TOp.applySkip, sendReplySkip, Conn.fresh, loopRound, received, garbled, decode]
+
+/-- Facts about the source the transport model relies on (regenerated on every run): every handler of the `try` around
+`sendall` in `TCPRequestHandler.send_reply` sets `self.running = False` unconditionally and `Exception` is among the classes
+caught (a time-out is an `OSError`); `sendall` is only called under `if self.running` inside the send lock; both loops of
+`RequestHandler.handle` test `self.running`; `finish` is called in a `finally`, tells the dispatcher `remove_connection(self)`
+and (TCP) closes the socket; `remove_connection` takes the connection out of `_connections`, `_active_connections` and every
+subscription. -/
+theorem send_shape :
+    Generated.C05.sendFailureStops = true ∧ "Exception" ∈ Generated.C05.sendCaught ∧
+    Generated.C05.sendGuardedByRunning = true ∧ Generated.C05.handleLoopsTestRunning = true ∧
+    Generated.C05.finishAlwaysCalled = true ∧ Generated.C05.finishRemovesConnection = true ∧
+    Generated.C05.tcpFinishClosesSocket = true ∧ Generated.C05.removeConnectionForgets = true := by decide
+
+/-! non-vacuity -/
+/-- three frames, the second `sendall` times out after 4 bytes: the third is never sent, the round closes and forgets -/
+def exOps : List (TOp Nat) := [.send 10 .ok, .round, .send 11 (.fails 4), .send 12 .ok, .round]
+example : received (runT Conn.fresh exOps) = [10] ∧ garbled (runT Conn.fresh exOps) = 0 ∧
+    (runT Conn.fresh exOps).listed = false ∧ (runT Conn.fresh exOps).closed = true ∧ handed exOps = [10, 11, 12] := by decide
+example : received (runT Conn.fresh [TOp.send 10 .ok, .round, .send 11 .ok]) = [10, 11] ∧
+    (runT Conn.fresh [TOp.send 10 .ok, .round, .send 11 .ok]).listed = true := by decide
+/-- between the failed send and the round the connection is still listed but silent (at most one receive time-out) -/
+example : (runT Conn.fresh [TOp.send 10 (.fails 0), .send 11 .ok]).listed = true ∧
+    received (runT Conn.fresh [TOp.send 10 (.fails 0), .send 11 .ok]) = [] := by decide
+/-- `transport_preserves_statement` on a stream of three points (snapshot 5; change to 6; unchanged), the peer stops
+reading at the second point -/
+example : through Conn.fresh [((⟨[5], 5⟩ : Obs Nat), []), (⟨[6], 6⟩, [.fails 2]), (⟨[], 6⟩, [])] =
+    [⟨⟨[5], 5⟩, 0, true, true⟩, ⟨⟨[], 6⟩, 0, false, false⟩, ⟨⟨[], 6⟩, 0, false, false⟩] := by rfl
+example : TraceOkT (fun _ : Nat => false) none 5
+    (through Conn.fresh [((⟨[5], 5⟩ : Obs Nat), []), (⟨[6], 6⟩, [.fails 2]), (⟨[], 6⟩, [])]) :=
+  transport_preserves_statement _ none 5 _ ((Frappy.Update.judgeO_none_iff (fun _ : Nat => false) 5 [⟨[5], 5⟩, ⟨[6], 6⟩, ⟨[], 6⟩]).1 (by decide))
+example : judgeT (fun _ : Nat => false) 5 [⟨⟨[5], 5⟩, 0, true, true⟩, ⟨⟨[], 6⟩, 0, true, true⟩] = some (1, "change-not-announced") := by
+  decide
+example : judgeT (fun _ : Nat => false) 5 [⟨⟨[5], 5⟩, 0, true, true⟩, ⟨⟨[], 6⟩, 0, false, true⟩] =
+    some (1, "closed-but-still-listed") := by decide
+example : judgeT (fun _ : Nat => false) 5 [⟨⟨[5], 5⟩, 0, true, true⟩, ⟨⟨[], 6⟩, 0, false, false⟩, ⟨⟨[], 7⟩, 0, false, false⟩] = none := by
+  decide
+
+end transport
 
 end Frappy.Props.C05
